@@ -262,6 +262,8 @@ func (dec *Decoder) DiscardValue() bool {
 	var s string
 	if dec.String(&s) {
 		return true
+	} else if dec.err != nil {
+		return false
 	}
 
 	isList, err := dec.List(func() error {
@@ -398,6 +400,8 @@ func (dec *Decoder) ExpectAString(ptr *string) bool {
 	}
 	if dec.Literal(ptr) {
 		return true
+	} else if dec.err != nil {
+		return false // the literal has been refused
 	}
 	// TODO: accept unquoted resp-specials
 	return dec.ExpectAtom(ptr)
@@ -563,7 +567,7 @@ func (dec *Decoder) Literal(ptr *string) bool {
 	if dec.CheckBufferedLiteralFunc != nil {
 		if err := dec.CheckBufferedLiteralFunc(lit.Size(), nonSync); err != nil {
 			lit.cancel()
-			return false
+			return dec.returnErr(err)
 		}
 	}
 	var sb strings.Builder
